@@ -49,8 +49,55 @@ pub fn scenarios(tier: &str) -> Vec<Scenario> {
                 out.push(b.scenario(w.clone(), b.params(Pk::Prm, r, 1.0, 0.0), &format!("C18/{kit}/{}/PRMr{r}", w.name)));
             }
         }
+        // a knife-edge world (R^2): a sliver whose closed face sits EXACTLY on a check point of the motion
+        // between two alphabet states in one direction, an ulp off it in the other. Whether such a link
+        // exists is the implementation's business (the sliver is far below the resolution) - but a link is
+        // an undirected thing: both adjacency lists have it or neither.
+        if kit == "RealVector" {
+            if let Some(ob) = knife_edge_box(&b) {
+                for &r in &[1.1, 1.6] {
+                    out.push(b.scenario(b.world_named("knife-edge", vec![ob.clone()]), b.params(Pk::Prm, r, 1.0, 0.0), &format!("C18/{kit}/knife-edge/PRMr{r}")));
+                }
+            }
+        }
     }
     out
+}
+
+/// A thin box whose closed lower face is the LARGER of the two floating-point values that the forward
+/// and the backward interpolation produce for the same point of the segment between two alphabet
+/// states (None if no check point of that segment rounds differently in the two directions).
+fn knife_edge_box(b: &crate::catalog::Base) -> Option<crate::scen::ObstSpec> {
+    use crate::kit::{Rv, V};
+    let sp = Rv::build(&b.spec);
+    let l = sp.get_longest_valid_segment_length();
+    for (i, va) in b.alphabet.iter().enumerate() {
+        for vb in b.alphabet.iter().skip(i + 1) {
+            let (V::Rv(pa), V::Rv(pb)) = (va, vb) else { continue };
+            if pa[1] != pb[1] || pa[0] == pb[0] {
+                continue; // horizontal segments only: the box is a vertical slab
+            }
+            let (a, c) = (Rv::from_v(va), Rv::from_v(vb));
+            let d = sp.distance(&a, &c);
+            let n = (d / (l * 0.1)).ceil() as usize;
+            if n < 4 {
+                continue;
+            }
+            let mut x = a.clone();
+            for k in 1..n {
+                sp.interpolate(&a, &c, k as f64 / n as f64, &mut x);
+                let fwd = x.values[0];
+                sp.interpolate(&c, &a, (n - k) as f64 / n as f64, &mut x);
+                let bwd = x.values[0];
+                if fwd != bwd {
+                    let lo = fwd.max(bwd);
+                    // thinner than the spacing of the check points, so that no other check point falls inside
+                    return Some(crate::scen::ObstSpec::Box2(lo, lo + 0.2 * d / n as f64, pa[1] - 0.05, pa[1] + 0.05));
+                }
+            }
+        }
+    }
+    None
 }
 
 type Graph<K> = Vec<(<K as Kit>::S, Vec<usize>)>;
